@@ -117,7 +117,7 @@ def run_continuity(sc: dict[str, Any]) -> dict[str, Any]:
         except Stall:
             stall = True
         watched = sorted(f'{w.res.plural}|{w.ns or "*"}' for w in sim.srv.watches if w.res.plural == PLURAL)
-        events = convert(sim.recorder.events, {PLURAL}) + [{'ev': 'check', 'served': [f'{PLURAL}|*'], 'watched': watched, 'settled': True, 'cscoped': []}]
+        events = convert(sim.recorder.events, {PLURAL}, attempts=len(tuple(op.settings.networking.error_backoffs)) + 1) + [{'ev': 'check', 'served': [f'{PLURAL}|*'], 'watched': watched, 'settled': True, 'cscoped': []}]
         steps = [] if stall else streaming.segments(sim.recorder.events, streaming.conf_from_settings(op.settings), sc['id'], end_t=sc['end'])
         if not stall:
             op.finish()
@@ -153,7 +153,10 @@ def convert(raw: list[dict[str, Any]], plurals: set[str], attempts: int = 3) -> 
         elif ev == 'srv.fault' and e.get('plural') in plurals and e.get('route') in ('list', 'watch'):
             k = (e.get('loop'), e['plural'], e.get('ns'), e['route'])
             failed[k] = failed.get(k, 0) + 1
-            if failed[k] >= attempts:       # the call gives up with the error of its last attempt
+            if e.get('fault') == 'status' and 400 <= e.get('code', 0) < 500 and e.get('code') not in (401, 403, 429):
+                failed[k] = 0               # any other 4xx is not retried: the call gives up at once, and nobody catches it
+                out.append({'ev': 'fatal', 'key': f'{e["plural"]}|{e.get("ns") or "*"}', 'why': 'escalated'})
+            elif failed[k] >= attempts:     # the call gives up with the error of its last attempt
                 failed[k] = 0
                 if e.get('fault') == 'status' and (e.get('code', 0) >= 500 or e.get('code') == 403):
                     out.append({'ev': 'fatal', 'key': f'{e["plural"]}|{e.get("ns") or "*"}', 'why': 'escalated'})
